@@ -849,31 +849,35 @@ func (a *FA) InductionOf(idx ssa.Value, use *ssa.BasicBlock) (*LoopIV, bool) {
 		return nil, false
 	}
 	iv.Facts = append(iv.Facts, fmt.Sprintf("index %s: first value %s, step %d", L, iv.FirstLin, iv.Step))
-	// loop guard: a dominating condition D op 0 where D = idx - N
-	for _, c := range a.Conds(use) {
-		D, op, ok := a.CondRel(c)
-		if !ok {
-			continue
-		}
-		if D.T[phiAtom] == 1 && (op == opLT || op == opLE) {
-			// idx - N' + (D - idx + N') ... D = idx - N  =>  N = idx - D
-			n := L.Sub(D)
-			if op == opLE {
-				n.K++
+	// loop guard: a dominating condition D op 0 where D = idx - N; the test in the
+	// loop header itself is preferred over guards nested in the body
+	for pass := 0; pass < 2 && !iv.HasN; pass++ {
+		for _, c := range a.Conds(use) {
+			if pass == 0 && c.If.Block() != phi.Block() {
+				continue
 			}
-			iv.N, iv.HasN = n, true
-			iv.Facts = append(iv.Facts, fmt.Sprintf("guard at %s: index < %s", a.W.InstrPos(c.If), n))
-			break
-		}
-		if D.T[phiAtom] == -1 && (op == opGT || op == opGE) {
-			// N - idx > 0
-			n := L.Add(D)
-			if op == opGE {
-				n.K++
+			D, op, ok := a.CondRel(c)
+			if !ok {
+				continue
 			}
-			iv.N, iv.HasN = n, true
-			iv.Facts = append(iv.Facts, fmt.Sprintf("guard at %s: index < %s", a.W.InstrPos(c.If), n))
-			break
+			if D.T[phiAtom] == 1 && (op == opLT || op == opLE) {
+				n := L.Sub(D)
+				if op == opLE {
+					n.K++
+				}
+				iv.N, iv.HasN = n, true
+				iv.Facts = append(iv.Facts, fmt.Sprintf("guard at %s: index < %s", a.W.InstrPos(c.If), n))
+				break
+			}
+			if D.T[phiAtom] == -1 && (op == opGT || op == opGE) {
+				n := L.Add(D)
+				if op == opGE {
+					n.K++
+				}
+				iv.N, iv.HasN = n, true
+				iv.Facts = append(iv.Facts, fmt.Sprintf("guard at %s: index < %s", a.W.InstrPos(c.If), n))
+				break
+			}
 		}
 	}
 	return iv, true
